@@ -15,18 +15,28 @@ FirstNul(b) == CHOOSE i \in DOMAIN b : b[i] = 0 /\ \A j \in 1..(i - 1) : b[j] # 
 Rejected == [ok |-> FALSE, bytes |-> << >>]
 NoStr    == [ok |-> FALSE, s |-> << >>]
 
-(* fixed_str_to_bytes::<n>: only the length is checked *)
-ToBytes(name, n) == IF Len(name) > n THEN Rejected ELSE [ok |-> TRUE, bytes |-> Pad(name, n)]
+(* fixed_str_to_bytes::<n> as repaired by "fix: fixed-size names must read back as accepted":
+   the length is checked and an interior NUL is rejected.  (Before the repair only the length was
+   checked: ToBytesOld.) *)
+ToBytesOld(name, n) == IF Len(name) > n THEN Rejected ELSE [ok |-> TRUE, bytes |-> Pad(name, n)]
+ToBytes(name, n) ==
+  IF Len(name) > n \/ HasNul(name) THEN Rejected ELSE [ok |-> TRUE, bytes |-> Pad(name, n)]
 
-(* bytes_to_fixed_str: the first NUL ends the name; no NUL -> InvalidFormat.  (The UTF-8 check
-   cannot fail on the prefix of a valid string cut at a NUL.) *)
-FromBytes(bytes) ==
+(* bytes_to_fixed_str as repaired: the first NUL ends the name, a buffer without NUL is a name that
+   fills the field.  (Before the repair: no NUL -> InvalidFormat, FromBytesOld.)  The UTF-8 check
+   cannot fail on the prefix of a valid string cut at a NUL. *)
+FromBytesOld(bytes) ==
   IF ~HasNul(bytes) THEN NoStr ELSE [ok |-> TRUE, s |-> SubSeq(bytes, 1, FirstNul(bytes) - 1)]
+FromBytes(bytes) ==
+  IF ~HasNul(bytes) THEN [ok |-> TRUE, s |-> bytes]
+  ELSE [ok |-> TRUE, s |-> SubSeq(bytes, 1, FirstNul(bytes) - 1)]
 
 (* read function that also accepts a name filling the whole field *)
-FromBytesFull(bytes) == IF ~HasNul(bytes) THEN [ok |-> TRUE, s |-> bytes] ELSE FromBytes(bytes)
+FromBytesFull(bytes) == FromBytes(bytes)
 
-Read(bytes, full) == IF full THEN FromBytesFull(bytes) ELSE FromBytes(bytes)
+(* the two read functions the design is stated against: the pre-repair one (terminator required)
+   and the one that also reads a name filling the field (the code after the repair) *)
+Read(bytes, full) == IF full THEN FromBytesFull(bytes) ELSE FromBytesOld(bytes)
 
 (* design: accept exactly the names that read back unchanged *)
 Readable(name, n, full) ==
